@@ -84,6 +84,7 @@ class Table:
         """share: another Table whose event loop this one runs on (two applications in one process)"""
         self.api = api
         self.log = []
+        self.log_forms = []
         self.shared = share is not None
         if api == 'dispatcher':
             self.loop = None
@@ -182,7 +183,15 @@ class Table:
             if bool(r) != bool(res):
                 res.append(('return-value-mismatch', r))
             return res
-        self.face.deliver(interest_wire(t))
+        wire = interest_wire(t)
+        # the forwarder may hand an Interest over bare or in a link-layer envelope (numbered, with or without a PIT token): same routing
+        form = (len(t) + len(self.log_forms)) % 3
+        self.log_forms.append(form)
+        if form == 1:
+            wire = ts.tlv(0x64, ts.tlv(0x51, bytes(8)) + ts.tlv(0x50, wire))
+        elif form == 2:
+            wire = ts.tlv(0x64, ts.tlv(0x51, b'\x00' * 7 + b'\x09') + ts.tlv(0x62, b'\xaa\xbb') + ts.tlv(0x50, wire))
+        self.face.deliver(wire)
         self.loop.drain()
         return list(self.log)
 
@@ -393,6 +402,55 @@ def run_route_alias(api):
         check_table(tb, declared, PROBES4, 'route-alias', viol, acc)
     except Exception as e:  # noqa
         viol.append((f'C04|{api}|route-alias|raises:{type(e).__name__}', repr(e)))
+    finally:
+        tb.close()
+    return viol
+
+
+UNREG_ANSWERS = ('ok', 'silence', 'nack', 'garbage', '403')
+
+
+def run_unregister(answer):
+    """legacy: a prefix with a handler is unregistered; whatever the forwarder makes of the command (confirms, stays silent, Nacks,
+    answers rubbish or refuses), the handler is no longer the application's afterwards"""
+    viol = []
+    acc = Acc()
+    tb = Table('legacy')
+    try:
+        attached = {}
+        for k, pth in enumerate([('a',), ('a', 'b'), ('b',)]):
+            tb.attach(pth, k, 'h' + '/'.join(pth))
+            attached[pth] = 'h' + '/'.join(pth)
+
+        def on_send(wire):
+            if wire[0] != 5:
+                return
+            if answer == 'ok' or answer == '403':
+                code = 200 if answer == 'ok' else 403
+                body = ts.tlv(0x65, ts.tlv(0x66, ts.uint(code)) + ts.tlv(0x67, b'x'))
+                r = ns.read_interest(wire)
+                tb.face.deliver(bytes(enc.make_data([bytes(c) for c in r['name']], enc.MetaInfo(), body)))
+            elif answer == 'nack':
+                tb.face.deliver(bytes(enc.make_network_nack(wire, 150)))
+            elif answer == 'garbage':
+                r = ns.read_interest(wire)
+                tb.face.deliver(bytes(enc.make_data([bytes(c) for c in r['name']], enc.MetaInfo(), b'\x65\x7f\x00')))
+        tb.face.on_send = on_send
+        out = {}
+
+        async def go():
+            try:
+                out['r'] = await tb.app.unregister(as_repr(('a', 'b'), 0))
+            except BaseException as e:  # noqa
+                out['r'] = f'raises:{type(e).__name__}'
+        t = tb.loop.create_task(go())
+        tb.loop.settle()
+        if not t.done():
+            viol.append((f'C04|legacy|unregister|{answer}|never-returns', 'unregister did not finish'))
+        del attached[('a', 'b')]
+        check_table(tb, attached, PROBES4, f'unregister-{answer}', viol, acc)
+    except Exception as e:  # noqa
+        viol.append((f'C04|legacy|unregister|{answer}|raises:{type(e).__name__}', repr(e)))
     finally:
         tb.close()
     return viol
@@ -618,6 +676,16 @@ def unit(arg):
             acc.observe(['route-alias', api, [x[0] for x in v]])
             for sig, what in v:
                 acc.violation(sig, what, {'kind': 'route-alias', 'api': api})
+        for answer in UNREG_ANSWERS:
+            v = run_unregister(answer)
+            acc.evaluations += 1
+            acc.state_count += 1
+            acc.nontrivial += 1
+            acc.transitions += len(PROBES4) + 1
+            acc.outcome(f"unregister|{answer}|{'ok' if not v else 'viol'}")
+            acc.observe(['unregister', answer, [x[0] for x in v]])
+            for sig, what in v:
+                acc.violation(sig, what, {'kind': 'unregister', 'answer': answer})
         for rot in range(5):
             v = run_reconnect(rot)
             acc.evaluations += 1
@@ -652,6 +720,8 @@ def replay(case):
         v = run_reconnect(case['rot'])
     elif case['kind'] == 'route-alias':
         v = run_route_alias(case['api'])
+    elif case['kind'] == 'unregister':
+        v = run_unregister(case['answer'])
     elif case['kind'] == 'two-apps':
         v = run_two_apps(case['api'], case['rot'])
     else:
